@@ -57,8 +57,15 @@ func (o *Out) Emit(c Case) {
 		}
 		o.dist[k] = true
 	}
-	if len(o.sample) < 5 && (idx%97 == 0 || o.only >= 0) {
-		o.sample = append(o.sample, c.Meta)
+	if len(o.sample) < 4 && (idx%97 == 0 || o.only >= 0) {
+		sm := map[string]interface{}{}
+		for k, v := range c.Meta {
+			if s, ok := v.(string); ok && len(s) > 600 {
+				v = s[:600] + "…"
+			}
+			sm[k] = v
+		}
+		o.sample = append(o.sample, sm)
 	}
 }
 
